@@ -107,6 +107,17 @@ def small_lexicons():
                     if frames:
                         lex['frames'] = copy.deepcopy(frames)
                     yield lex
+    # a lexicon extension: new senses (with subcat) on an EXTERNAL entry next to an external sense, plus a new entry
+    for sc_new, sc_own in itertools.product(([], ['f1'], ['f1', 'f2']), repeat=2):
+        ext_entry = {'id': 'base-e', 'external': True,
+                     'senses': [{'id': 'base-s', 'external': True},
+                                {'id': 'x-s1', 'synset': 'ss', 'meta': None, **({'subcat': list(sc_new)} if sc_new else {})}]}
+        own_entry = {'id': 'x-e', 'meta': None, 'lemma': {'writtenForm': 'w', 'partOfSpeech': 'v'},
+                     'senses': [{'id': 'x-s2', 'synset': 'ss', 'meta': None, **({'subcat': list(sc_own)} if sc_own else {})}]}
+        yield {'id': 'x', 'version': '1', 'label': 'l', 'language': 'en', 'email': 'e', 'license': 'l', 'meta': None,
+               'extends': {'id': 'base', 'version': '1'},
+               'frames': [{'id': 'f1', 'subcategorizationFrame': 'F1'}, {'id': 'f2', 'subcategorizationFrame': 'F2'}],
+               'entries': [ext_entry, own_entry]}
     # several entry-level frames per entry (with / without `senses`) and a later entry that uses some of them again:
     # every frame of every entry must end up with exactly its own senses
     efr = [{'subcategorizationFrame': 'F1'}, {'subcategorizationFrame': 'F2'},
